@@ -232,7 +232,7 @@ func init() {
 	)
 }
 
-var hostileWeights = Weights{"write-new": 10, "modify": 8, "remove-file": 3, "add": 14, "add-invalid": 2, "rm": 4, "rm-invalid": 2, "commit": 14,
+var hostileWeights = Weights{"dir-at-unstaged-file": 3, "file-at-unstaged-dir": 3, "write-new": 10, "modify": 8, "remove-file": 3, "add": 14, "add-invalid": 2, "rm": 4, "rm-invalid": 2, "commit": 14,
 	"reset": 8, "reset-invalid": 4, "restore": 2, "restore-staged": 2, "restore-invalid": 2,
 	"branch": 4, "branch-d": 3, "branch-r": 5, "switch": 4, "switch-c": 3, "update-ref": 3,
 	"dir2file": 3, "file2dir": 3, "update-ref-hostile": 10, "branch-hostile": 8, "switch-hostile": 2}
